@@ -57,6 +57,7 @@ impl Fault {
         let c = CLASS_NAMES[self.cls as usize];
         match self.kind {
             F_ERRNO => format!("{c}:{}", errno_name(self.a as i32)),
+            F_SHORT if self.a == 0 => format!("{c}:zero"),
             _ => format!("{c}:{k}"),
         }
     }
